@@ -10,7 +10,7 @@ from typing import List, Dict, Optional, Tuple
 
 from .. import AnalysisError
 from .. import tables
-from ..effects import (Slots, is_finish, is_enq_send, is_enq_lease, signal_kind, is_cancel_call, build_class,
+from ..effects import (Slots, is_finish, is_gone, is_enq_send, is_enq_lease, signal_kind, is_cancel_call, build_class,
                        strip_epoch)
 from ..index import ClassInfo, FuncInfo, walk_local
 from ..interp import AVal, const, Path, Event
@@ -33,6 +33,7 @@ class Entry:
         self.frame_cls = frame_cls
         self.flags = flags or {}
         self.helper = helper
+        self.is_event = True  # an externally triggered event (peer frame, public API, registered callback)
 
     def __repr__(self):
         return 'Entry(%s)' % self.name
@@ -168,6 +169,7 @@ class HandlerModel:
                     label += '[' + ','.join(k[6:] if v else '!' + k[6:] for k, v in sorted(flags.items())) + ']'
                 out.append(Entry(h, label, fr, self.hval(h), {'frame': AVal(FRAME_TERM, [t], exact=True)}, heap,
                                  'frame', t, flags))
+        callbacks = self._registered_callbacks(h)
         for f in self.own_methods(h):
             if f.name in ('frame_received', '__init__') or f.is_property():
                 continue
@@ -175,7 +177,9 @@ class HandlerModel:
                 label = '%s.%s' % (h.name, f.name)
                 if combo:
                     label += '(' + ','.join('%s=%s' % (k, v.const) for k, v in sorted(combo.items())) + ')'
-                out.append(Entry(h, label, f, self.hval(h), combo, {}, 'method'))
+                en = Entry(h, label, f, self.hval(h), combo, {}, 'method')
+                en.is_event = (not f.name.startswith('_')) or f.name in callbacks
+                out.append(en)
         for hc, heap in self.helpers(h):
             for name, f in sorted(hc.methods.items()):
                 if name == '__init__':
@@ -187,6 +191,18 @@ class HandlerModel:
                     out.append(Entry(h, label, f, AVal(('self',), [hc], exact=True), combo, dict(heap), 'helper',
                                      helper=hc))
         self._entries[h] = out
+        return out
+
+    def _registered_callbacks(self, h: ClassInfo):
+        """Names of methods of h passed as self.<name> to add_done_callback / call_soon (deferred entry points)."""
+        out = set()
+        for f in self.own_methods(h):
+            for n in walk_local(f.node):
+                if isinstance(n, ast.Call) and isinstance(n.func, ast.Attribute) and n.func.attr in (
+                        'add_done_callback', 'call_soon', 'call_later'):
+                    for a in n.args:
+                        if isinstance(a, ast.Attribute) and isinstance(a.value, ast.Name) and a.value.id == 'self':
+                            out.add(a.attr)
         return out
 
     def run(self, entry: Entry, pre: Optional[Dict[str, object]] = None, exc=()) -> List[Path]:
@@ -214,7 +230,7 @@ class HandlerModel:
         return out
 
     def finished(self, p: Path) -> bool:
-        return any(is_finish(e, self.slots) for e in p.events)
+        return any(is_gone(e, self.slots) for e in p.events)
 
     def emitted(self, p: Path) -> List[Tuple[str, Optional[bool], Event]]:
         """Frames enqueued along the path: (frame class name, complete flag or None, enqueue event)."""
